@@ -430,14 +430,44 @@ type c19LookupObs struct {
 	Log      []srv.Req `json:"log,omitempty"`
 }
 
+// c19Reps are representations of one instant as a time.Time: the API takes a time.Time, and
+// values that are Equal need not be == (location pointer, monotonic reading).
+var c19Reps = []string{"utc", "unix", "+05:30", "-08:00", "local", "mono"}
+
+func c19Rep(t time.Time, rep int) time.Time {
+	var out time.Time
+	switch c19Reps[rep%len(c19Reps)] {
+	case "unix":
+		out = time.Unix(t.Unix(), int64(t.Nanosecond())) // Local, even in a UTC zone
+	case "+05:30":
+		out = t.In(time.FixedZone("IST", 5*3600+1800))
+	case "-08:00":
+		out = t.In(time.FixedZone("", -8*3600))
+	case "local":
+		out = t.Local()
+	case "mono": // derived from time.Now(): carries a monotonic clock reading
+		now := time.Now()
+		out = now.Add(t.Sub(now))
+	default:
+		return t
+	}
+	if !out.Equal(t) { // (duration overflow for instants centuries away)
+		return t
+	}
+	return out
+}
+
 // c19Lookup runs one (S, t) input through the library and the oracle. inKey identifies the
 // input; windowed selects the budget rule for offset directories.
 func c19Lookup(res *fw.Result, p *srv.Planet, sd *srv.Dir, d *c19Dir, q, v int, inKey, sigPrefix string, windowed bool) *c19LookupObs {
-	t := d.queryTime(q, v)
+	// v carries the place inside a gap (v%3) and the representation of the instant (v/3)
+	rep := v / 3 % len(c19Reps)
+	t := d.queryTime(q, v%3)
+	tq := c19Rep(t, rep) // same instant, another time.Time value
 	want := d.expected(t)
 	budget, rng, missing := d.budget(t, windowed)
 	p.Load(sd, budget, d.prefix)
-	got, st, err := c19StateAt(c19Datasource(p), d.stream, t)
+	got, st, err := c19StateAt(c19Datasource(p), d.stream, tq)
 	count, log, unexpected, perSeq := p.Observed()
 	// A lookup that fails inside the HTTP client's transport (not with a status the server
 	// sent) while the server stayed within the budget is run again, in a fresh epoch: net/http
@@ -447,12 +477,12 @@ func c19Lookup(res *fw.Result, p *srv.Planet, sd *srv.Dir, d *c19Dir, q, v int, 
 	for try := 0; try < 2 && c19TransportError(err) && count <= budget && len(unexpected) == 0; try++ {
 		res.Add("lookups_repeated_after_transport_error", 1)
 		p.Load(sd, budget, d.prefix)
-		got, st, err = c19StateAt(c19Datasource(p), d.stream, t)
+		got, st, err = c19StateAt(c19Datasource(p), d.stream, tq)
 		count, log, unexpected, perSeq = p.Observed()
 	}
 
 	k := len(d.present)
-	obs := &c19LookupObs{Stream: d.stream, Present: c19SetString(d.present), Query: t.Format(time.RFC3339Nano),
+	obs := &c19LookupObs{Stream: d.stream, Present: c19SetString(d.present), Query: tq.Format(time.RFC3339Nano) + " (" + c19Reps[rep] + ")",
 		Position: fmt.Sprintf("q%d/%s", q, c19PosClass(q, k)), Expected: want, Got: got, Requests: count, Budget: budget}
 	if err != nil {
 		obs.Err = err.Error()
@@ -509,7 +539,11 @@ func c19Lookup(res *fw.Result, p *srv.Planet, sd *srv.Dir, d *c19Dir, q, v int, 
 	if mc > 12 {
 		mc = 12 + c19Log2Ceil(uint64(mc))
 	}
-	res.Eval(fmt.Sprintf("%s/%s/r%d/m%d/%s/%s%s", sigPrefix, d.stream, c19Log2Ceil(uint64(rng)), mc, c19PosClass(q, k), minState, prefixOnly))
+	pos := c19PosClass(q, k)
+	if q%2 == 1 { // query equal to a state's time: the representation of the instant matters
+		pos += "@" + c19Reps[rep]
+	}
+	res.Eval(fmt.Sprintf("%s/%s/r%d/m%d/%s/%s%s", sigPrefix, d.stream, c19Log2Ceil(uint64(rng)), mc, pos, minState, prefixOnly))
 	return obs
 }
 
@@ -605,8 +639,20 @@ func c19ExecEnum(res *fw.Result, p *srv.Planet, stream string, n, lo, hi int) {
 		sd := d.serverDir()
 		k := len(d.present)
 		for q := 0; q <= 2*k; q++ {
-			key := fmt.Sprintf("C19/lookup/stream=%s/N=%d/S=%s/t=q%d", stream, n, c19SetString(d.present), q)
-			obs := c19Lookup(res, p, sd, d, q, (mask+q)%3, key, "enum", false)
+			// a query equal to a state's time is made twice: as the UTC value and in one other
+			// representation of the same instant; the other positions rotate through all of them
+			reps := []int{(mask*5 + q) % len(c19Reps)}
+			if q%2 == 1 {
+				reps = []int{0, 1 + (mask+q)%(len(c19Reps)-1)}
+			}
+			var obs *c19LookupObs
+			for _, rep := range reps {
+				key := fmt.Sprintf("C19/lookup/stream=%s/N=%d/S=%s/t=q%d", stream, n, c19SetString(d.present), q)
+				if rep != 0 {
+					key += "@" + c19Reps[rep]
+				}
+				obs = c19Lookup(res, p, sd, d, q, (mask+q)%3+3*rep, key, "enum", false)
+			}
 			if first == nil && mask == lo+(hi-lo)/2 && q == k {
 				first = obs
 				_, first.Log, _, _ = p.Observed()
@@ -747,7 +793,7 @@ func c19ExecRand(res *fw.Result, p *srv.Planet, stream string, seed uint64) {
 		sd := d.serverDir()
 		k := len(d.present)
 		for _, q := range c19Positions(r, k, 16) {
-			v := r.Intn(3)
+			v := r.Intn(3) + 3*r.Intn(len(c19Reps))
 			key := fmt.Sprintf("C19/lookup/stream=%s/ts=%x/step=%d/S=%s/t=q%d.%d", stream, d.tsid, d.step, c19SetString(d.present), q, v)
 			obs := c19Lookup(res, p, sd, d, q, v, key, "rand", false)
 			if sample == nil && q > 2 {
@@ -806,7 +852,7 @@ func c19ExecOffset(res *fw.Result, p *srv.Planet, stream string, seed uint64, si
 			if q <= 1 && !short {
 				continue
 			}
-			v := r.Intn(3)
+			v := r.Intn(3) + 3*r.Intn(len(c19Reps))
 			key := fmt.Sprintf("C19/lookup/stream=%s/ts=%x/step=%d/S=%s/t=q%d.%d", stream, d.tsid, d.step, c19SetString(d.present), q, v)
 			obs := c19Lookup(res, p, sd, d, q, v, key, "offset", true)
 			if sample == nil && q > 2 {
@@ -885,15 +931,25 @@ func c19ExecSkew(res *fw.Result, p *srv.Planet, stream string, seed uint64, pi i
 		aux := uint64(r.Intn(1000))
 		d := &c19Dir{stream: stream, min: 1, step: 60, secs: c19SkewSecs(profile, n, pause, aux), missing: map[uint64]bool{}}
 		d.tsid = c19Mix(uint64(n)<<20^uint64(pause), aux) | 1
-		switch r.Intn(4) {
+		gapMode := r.Intn(5)
+		switch gapMode {
 		case 0: // scattered single files
 			for g := r.Range(1, 20); g > 0; g-- {
 				d.missing[uint64(r.Range(2, n-1))] = true
 			}
 		case 1: // runs next to the probes of a bisection
 			c19GapRuns(r, d.missing, 2, uint64(n), uint64(r.Range(2, n)))
+		case 2: // the first state and the first 1-3 probes of a bound search that halves the
+			// distance from 1 to the newest state are missing, everything else is there
+			x := uint64(1)
+			for j := r.Range(1, 3); j >= 0; j-- {
+				d.missing[x] = true
+				x = (x + uint64(n)) / 2
+			}
 		}
-		delete(d.missing, 1)
+		if gapMode != 2 {
+			delete(d.missing, 1)
+		}
 		delete(d.missing, uint64(n))
 		var miss []uint64
 		for x := uint64(1); x <= uint64(n); x++ {
@@ -934,7 +990,7 @@ func c19ExecSkew(res *fw.Result, p *srv.Planet, stream string, seed uint64, pi i
 		}
 		sort.Ints(order)
 		for _, q := range order {
-			v := r.Intn(3)
+			v := r.Intn(3) + 3*r.Intn(len(c19Reps))
 			key := fmt.Sprintf("C19/lookup/stream=%s/skew=%s/pause=%d/aux=%d/N=%d/missing=%s/t=q%d.%d", stream, profile, pause, aux, n, c19SetString(miss), q, v)
 			obs := c19Lookup(res, p, sd, d, q, v, key, "skew-"+profile, false)
 			obs.Present = fmt.Sprintf("1-%d without {%s}", n, c19SetString(miss))
@@ -1308,7 +1364,7 @@ func init() {
 			"(current always present) x every query position (before first, at each, between each, after last) — independent of the seed. " +
 			"rand: ranges up to 400 with random density and gap runs next to the probe sequence of a binary search; offset: windows at high " +
 			"offsets crossing directory levels with everything below missing; format: single state files in each documented layout; data: " +
-			"sequence-numbered data files; skew: gap-free and sparse-gap ranges of 1 000 to 100 000 states with skewed timestamp assignments (pauses, exponential spacing, clusters, bursts). Minute state files have realistic sizes (txnActiveList up to thousands of ids, 1-64 KiB), key orders, unknown keys, comments, CRLF (format); base URLs with percent-escaped path prefixes. Signature = kind/stream/log2(range)/missing-count class/query position class/first-state present or " +
+			"sequence-numbered data files; skew: gap-free and sparse-gap ranges of 1 000 to 100 000 states with skewed timestamp assignments (pauses, exponential spacing, clusters, bursts). Minute state files have realistic sizes (txnActiveList up to thousands of ids, 1-64 KiB), key orders, unknown keys, comments, CRLF (format); base URLs with percent-escaped path prefixes. Signature = kind/stream/log2(range)/missing-count class/query position class (for queries equal to a state's time also the representation of the instant: UTC, time.Unix, fixed zones, Local, monotonic reading)/first-state present or " +
 			"missing (prefix-only or scattered gaps); a signature is non-trivial when a lookup was actually executed against the fake server.",
 		Assumptions: []string{
 			"The fake server models the planet layout from its documentation: /replication/<stream>/state.txt (state.yaml for changesets), NNN/NNN/NNN.state.txt, .osc.gz / .osm.gz; timestamps strictly increase with the sequence number; the current state is the newest present file.",
